@@ -76,10 +76,12 @@ def fpa_cairn_statement : Prop :=
 /-- **How the two statements are discharged.**  `Holds var color size 6` follows from one evaluation of the
 opening game on the sparse board (`Proofs.FPAMini.mini_sound`: the evaluator is proved sound and the sparse
 board is proved to be a homomorphic image of the rule book).  The evaluation is a kernel computation
-(`decide +kernel`) whose cost grows with the number of openings (≈ size⁴): it is carried out for
-size 4 in `Props/C20_ds4.lean`, `Props/C20_cairn4w.lean`, `Props/C20_cairn4b.lean`
-(`fpa_doubleStack_partial`, `fpa_cairn_partial`); sizes 5..8 are covered on every run by the exhaustive
-correspondence of the same model against the real code, not by a kernel evaluation. -/
+(`decide +kernel`) whose cost grows with the number of openings (≈ size⁴; about one CPU-minute and
+1.5 GB per 200 openings): it is carried out, cut into one piece per first move, for the 4×4 and 5×5
+boards (`Props/C20_size4.lean`, `Props/C20_size5.lean`: `fpa_doubleStack_partial*`, `fpa_cairn_partial*`
+— an even and an odd board, which take different branches of the centre geometry); sizes 6..8 are
+covered on every run by the exhaustive correspondence of the same model against the real code, not by
+a kernel evaluation. -/
 theorem holds_of_check (var : Variant) (color : Color) (size : Nat)
     (h : check miniBoard FM var color 6 (minit size) = true) : Holds var color size 6 :=
   mini_sound var color 6 size h
